@@ -275,7 +275,7 @@ func TestC20(t *testing.T) {
 		fmt.Println("REPLAY case passed")
 		return
 	}
-	ev.Rule("(a) 20 published RGB spaces; (b) rapid triangles inside the chromaticity diagram with area >= 0.01 and white = barycentric mix with weights >= 0.05; (c) rapid 3x3 matrices with entries in [-4,4], |det| >= 1e-3; (d) exactly singular small-integer matrices (zero/repeated column or row, integer linear dependence). non-trivial = generated triangle (not a built-in space) or matrix with condition number > 10")
+	ev.Rule("(a) 20 published RGB spaces; (b) rapid triangles inside the chromaticity diagram with area >= 0.01 (a third with primaries sharing coordinates exactly) and every ordered lattice triangle of a 5x5 (thorough 8x8) grid, and white = barycentric mix with weights >= 0.05; (c) rapid 3x3 matrices with entries in [-4,4], |det| >= 1e-3; (d) exactly singular small-integer matrices (zero/repeated column or row, integer linear dependence). non-trivial = generated triangle (not a built-in space) or matrix with condition number > 10")
 	ev.Assume("internal/ref row-major Gauss-Jordan algebra")
 	for _, p := range append(append([]Prim(nil), published...), Prim{Name: "sRGB, white Y=5e-4", R: published[0].R, G: published[0].G, B: published[0].B, W: published[0].W, WY: 5e-4},
 		Prim{Name: "sRGB primaries given with their own luminances", R: published[0].R, G: published[0].G, B: published[0].B, W: published[0].W, PY: [3]float32{0.2126, 0.7152, 0.0722}},
@@ -290,6 +290,46 @@ func TestC20(t *testing.T) {
 			ev.Sample(map[string]any{"primaries": p, "cond": cond})
 		}
 	}
+	// lattice triangles: every ordered triple of grid points that spans area >= 0.01, so that every pattern of
+	// primaries sharing an x or a y coordinate exactly (right angles, axis-aligned edges, mirrored vertices) occurs
+	{
+		grid := []float32{0.1, 0.25, 0.4, 0.55, 0.7}
+		if ev.Thorough() {
+			grid = []float32{0.05, 0.15, 0.2, 0.3, 0.45, 0.6, 0.7, 0.8}
+		}
+		var pts [][2]float32
+		for _, x := range grid {
+			for _, y := range grid {
+				if x+y <= 1.05 {
+					pts = append(pts, [2]float32{x, y})
+				}
+			}
+		}
+		var nl int64
+		done := false
+		for i := 0; i < len(pts) && !done; i++ {
+			for j := 0; j < len(pts) && !done; j++ {
+				for k := 0; k < len(pts) && !done; k++ {
+					r, g, b := pts[i], pts[j], pts[k]
+					area := 0.5 * math.Abs(float64(g[0]-r[0])*float64(b[1]-r[1])-float64(b[0]-r[0])*float64(g[1]-r[1]))
+					if area < 0.01 {
+						continue
+					}
+					wts := [][3]float64{{1.0 / 3, 1.0 / 3, 1.0 / 3}, {0.2, 0.3, 0.5}, {0.6, 0.25, 0.15}}[(i+2*j+3*k)%3]
+					p := Prim{Name: "lattice", R: r, G: g, B: b}
+					p.W = [2]float32{float32(wts[0]*float64(r[0]) + wts[1]*float64(g[0]) + wts[2]*float64(b[0])), float32(wts[0]*float64(r[1]) + wts[1]*float64(g[1]) + wts[2]*float64(b[1]))}
+					nl++
+					if kd, w, _ := checkPrim(p); kd != "" {
+						ev.Violation("primaries", kd, w, p)
+						done = true
+					}
+				}
+			}
+		}
+		ev.Eval(nl)
+		ev.NTAdd(nl)
+		ev.Class("lattice-triangles", nl)
+	}
 	n := ev.Pick(20000, 500000)
 	ev.RapidChecks(n)
 	ev.RapidSeed(20)
@@ -300,6 +340,21 @@ func TestC20(t *testing.T) {
 		p.R, p.G = genXY(rt, "r"), genXY(rt, "g")
 		for tries := 0; ; tries++ {
 			p.B = genXY(rt, "b")
+			// a third of the triangles have primaries that share coordinates exactly
+			if tries == 0 && rapid.IntRange(0, 2).Draw(rt, "ties") == 0 {
+				pts := []*[2]float32{&p.R, &p.G, &p.B}
+				for nt := rapid.IntRange(1, 3).Draw(rt, "nties"); nt > 0; nt-- {
+					a, b := rapid.IntRange(0, 2).Draw(rt, "tiea"), rapid.IntRange(0, 2).Draw(rt, "tieb")
+					ax := rapid.IntRange(0, 1).Draw(rt, "tieaxis")
+					bx := ax
+					if rapid.IntRange(0, 5).Draw(rt, "tiecross") == 0 {
+						bx = 1 - ax
+					}
+					if v := pts[b][bx]; ax == 0 || v >= 0.01 || v <= -0.02 { // a chromaticity with y ~ 0 has no XYZ
+						pts[a][ax] = v
+					}
+				}
+			}
 			area := 0.5 * math.Abs(float64(p.G[0]-p.R[0])*float64(p.B[1]-p.R[1])-float64(p.B[0]-p.R[0])*float64(p.G[1]-p.R[1]))
 			inside := func(c [2]float32) bool { return c[0]+c[1] <= 1.05 }
 			if area >= 0.01 && inside(p.R) && inside(p.G) && inside(p.B) {
